@@ -20,6 +20,9 @@ Line protocol of the C11 driver (one output line per input line).
   drain <rounds>                           -> drained <id,..|-> <last error kind>
   rawgood <id> <segs>                      -> n <len>   (raw + declares segs[8..] good)
 
+Direct Buffer run: `buf <cap>`, `bufw <segs>`, `bufop consume|shift|grow|shrink|reset|read <n>`
+  -> r=<result> cap=<capacity> data=<available_data> space=<available_space> <hex of data()>
+
 Worker-side run (chanworker): the spec is a FIFO of unanswered request ids.
   wstart <buffer> <max> <sndbuf>           -> started
   wreq <seq> <idlen>                       -> sent      (not expected to be answered when idlen + 32 > ceiling)
@@ -72,6 +75,7 @@ structure DState where
   table : List (Bytes × String)   -- payload ↦ message id
   wq : List Nat := []             -- worker-side spec: requests not answered yet
   wmax : Nat := 0                 -- worker-side run: the channel's ceiling
+  buf : Buffer := Buffer.withCapacity 0   -- direct Buffer run
 
 def DState.decodes (d : DState) (p : Bytes) : Bool := d.table.any fun e => e.1 == p
 
@@ -101,6 +105,10 @@ def applyX (d : DState) (op : XOp) : DState × List String :=
   let (s1, o) := xstep d.decodes d.sys op
   let d1 := { d with sys := s1 }
   (d1, [outStr d1 o])
+
+/-- canonical line of the direct Buffer run: result, capacity, pending data, free tail, the data -/
+def bufLine (d : DState) (r : Nat) : DState × List String :=
+  (d, [s!"r={r} cap={d.buf.cap} data={d.buf.availData} space={d.buf.availSpace} {bytesToHex d.buf.data}"])
 
 def stepLine (d : DState) (line : String) : DState × List String :=
   match words line with
@@ -147,6 +155,29 @@ def stepLine (d : DState) (line : String) : DState × List String :=
     | none => (d, ["bad-op"])
   | ["wpause", _] => (d, ["paused"])
   | ["wstop"] => (d, ["alive left=" ++ toString d.wq.length])
+  | ["buf", c] =>
+    match c.toNat? with
+    | some c => bufLine { d with buf := Buffer.withCapacity c } 0
+    | none => (d, ["bad-op"])
+  | ["bufw", segs] =>
+    match parseSegs segs with
+    | some p => let (b, n) := bstep d.buf (.write p); bufLine { d with buf := b } n
+    | none => (d, ["bad-op"])
+  | ["bufop", op, n] =>
+    match n.toNat? with
+    | some n =>
+      let bop : Option BOp := match op with
+        | "consume" => some (.consume n)
+        | "shift" => some .shift
+        | "grow" => some (.grow n)
+        | "shrink" => some (.shrink n)
+        | "reset" => some .reset
+        | "read" => some (.read n)
+        | _ => none
+      match bop with
+      | some bop => let (b, r) := bstep d.buf bop; bufLine { d with buf := b } r
+      | none => (d, ["bad-op"])
+    | none => (d, ["bad-op"])
   | ["bread"] => applyX d .bread
   | ["bw", id, segs, sched] =>
     match parseSegs segs, parseSched sched with
